@@ -671,6 +671,90 @@ def render_cast_dispatch(ds):
         "  [" + ";\n   ".join(rows) + "].", ""])
 
 
+# ---- int() / flt() casts of comparison operands (left copy, right copy) -------------------------
+def strip_debug(text):
+    """removes `debug!( .. );` invocations (balanced parentheses; the strings inside hold no parentheses)"""
+    out = []
+    i = 0
+    while True:
+        j = text.find("debug!(", i)
+        if j < 0:
+            out.append(text[i:])
+            break
+        out.append(text[i:j])
+        depth, k = 0, j + 6
+        while k < len(text):
+            if text[k] == "(":
+                depth += 1
+            elif text[k] == ")":
+                depth -= 1
+                if depth == 0:
+                    break
+            k += 1
+        k += 1
+        while k < len(text) and text[k] in " \t\n;":
+            k += 1
+        i = k
+    return "".join(out)
+
+
+INT_CAST = ("let i = match document.find(F) { Some(i) => i, None => { return SolverResult::Missing; } }; match i { "
+            "Value::Bool(x) => { if x { Value::Int(1) } else { Value::Int(0) } } "
+            "Value::Float(x) => { let r = x.round(); if r >= LO && r < HI { Value::Int(r as i64) } else { return SolverResult::False; } } "
+            "Value::Int(x) => Value::Int(x), "
+            "Value::String(x) => match x.parse::<i64>() { Ok(i) => Value::Int(i), Err(e) => { return SolverResult::False; } }, "
+            "Value::UInt(x) => { if x <= i64::MAX as u64 { Value::Int(x as i64) } else { return SolverResult::False; } } "
+            "_ => { return SolverResult::False; } }")
+FLT_CAST = ("let i = match document.find(F) { Some(i) => i, None => { return SolverResult::Missing; } }; match i { "
+            "Value::Bool(x) => { if x { Value::Float(1.0) } else { Value::Float(0.0) } } "
+            "Value::Float(x) => Value::Float(x), "
+            "Value::Int(x) => { if x <= f64::MAX as i64 { Value::Float(x as f64) } else { return SolverResult::False; } } "
+            "Value::String(x) => match x.parse::<f64>() { Ok(i) => Value::Float(i), Err(e) => { return SolverResult::False; } }, "
+            "Value::UInt(x) => { if x <= f64::MAX as u64 { Value::Float(x as f64) } else { return SolverResult::False; } } "
+            "_ => { return SolverResult::False; } }")
+
+
+def extract_casts(src):
+    src = strip_comments(src)
+    res = {}
+    for mod, tmpl in (("Int", INT_CAST), ("Flt", FLT_CAST)):
+        heads = list(re.finditer(r"Expression::Cast\(\s*(\w+)\s*,\s*ModSym::%s\s*\)\s*=>\s*\{" % mod, src))
+        if len(heads) != 2:
+            fail("expected the %s() cast of a comparison operand twice (left, right), found %d" % (mod.lower(), len(heads)))
+        texts = []
+        for h in heads:
+            body, _ = brace_block(src, h.end() - 1)
+            flat = " ".join(strip_debug(body).split())
+            flat = flat.replace("document.find(%s)" % h.group(1), "document.find(F)")
+            texts.append(flat)
+        if texts[0] != texts[1]:
+            fail("the left and the right copy of the %s() cast differ" % mod.lower())
+        if mod == "Int":
+            mm = re.search(r"if r >= (-?[0-9.]+) && r < (-?[0-9.]+) \{", texts[0])
+            if not mm:
+                fail("range guard of int() on a float")
+            lo, hi = mm.group(1), mm.group(2)
+            if texts[0] != tmpl.replace("LO", lo).replace("HI", hi):
+                fail("int() cast arms are not the recognised ones")
+            for v in (lo, hi):
+                if not re.match(r"^-?[0-9]+\.0$", v):
+                    fail("bound of the int() range guard is not an integral literal: " + v)
+            res["lo"], res["hi"] = int(lo[:-2]), int(hi[:-2])
+        else:
+            if texts[0] != tmpl:
+                fail("flt() cast arms are not the recognised ones")
+    return res
+
+
+def render_casts(c):
+    return "\n".join([
+        "(* AUTO-GENERATED by tools/gen_tables.py from src/solver.rs (the int() and flt() casts of a comparison operand:"
+        "\n   the left and the right copy are identical and of the recognised shape; the range guard of int() on a float) -- do not edit. *)",
+        "From Coq Require Import ZArith.", "",
+        "Definition int_cast_lo : Z := (%d)%%Z." % c["lo"],
+        "Definition int_cast_hi : Z := (%d)%%Z." % c["hi"], ""])
+
+
 def coq_str(s):
     return "[" + "; ".join(str(ord(ch)) for ch in s) + "]%N"
 
@@ -796,6 +880,18 @@ def main():
         status["solver_cast"] = "ok"
     except Unrecognised as e:
         status["solver_cast"] = "shape not recognised: %s" % e
+    # table 8: the operand casts
+    try:
+        try:
+            ssrc5 = open(os.path.join(REPO, "src", "solver.rs"), encoding="utf-8").read()
+        except OSError as e:
+            fail("cannot read solver.rs: %s" % e)
+        cc = extract_casts(ssrc5)
+        info["casts_changed"] = write_if_changed(os.path.join(os.path.dirname(out), "GeneratedCasts.v"), render_casts(cc))
+        info["int_cast_bounds"] = [cc["lo"], cc["hi"]]
+        status["solver_casts"] = "ok"
+    except Unrecognised as e:
+        status["solver_casts"] = "shape not recognised: %s" % e
     info["status"] = status
     if "--json" in sys.argv:
         print(json.dumps(info))
